@@ -29,6 +29,9 @@ def isCyclic (idx : List Nat) : Bool :=
 def verifyRound (H : Hash) (St : State) (s s2 : List Card) (cyclic : Bool)
     (commit : Int) (b : Bool) (ss : StackSecret Int) : Except Err Bool := do
   if ss.length ≠ s.length then return false
+  -- the masking values must be below `q` in absolute value (repair of finding F26: larger exponents
+  -- hit the empty entries of the fixed-base tables and turn every card into (0, 0))
+  if ss.any (fun e => decide (e.2.natAbs ≥ St.G.q.natAbs)) then return false
   let s4 ← vtmfMix St false (if b then s2 else s) ss
   if commitment H s4 ≠ commit then return false
   if cyclic ∧ !isCyclic (ss.map Prod.fst) then return false
